@@ -101,6 +101,13 @@ func faultResponder(p *peer, ci, ri int, req *wireMsg, w io.Writer) bool {
 		// a well-formed message
 		w.Write([]byte("HTTP/1.1 200 OK\r\nThis is \x01not\x02 a field \x7fline\x1b[31m\r\nContent-Length: 2\r\n\r\nok"))
 		return true
+	case "bad_value_ctl":
+		w.Write([]byte("HTTP/1.1 200 OK\r\nX-A: a\x01b\x7fc\x1b[2J\r\nContent-Length: 2\r\n\r\nok"))
+		return true
+	case "bogus_101":
+		w.Write([]byte("HTTP/1.1 101 Switching Protocols\r\nX-Fault-Origin: yes\r\n\r\n"))
+		time.Sleep(300 * time.Millisecond)
+		return true
 	case "bad_chunk_size":
 		w.Write(append(append([]byte{}, head...), []byte("3e8\r\n"+string(c12Body[:1000])+"\r\nzz\r\n"+string(c12Body[1000:1100])+"\r\n0\r\n\r\n")...))
 		return true
@@ -175,6 +182,9 @@ func newC12Env() *c12Env {
 			io.WriteString(c, "HTTP/1.1 403 Forbidden\r\nContent-Length: 0\r\nX-Peer: R\r\n\r\n")
 		case strings.HasPrefix(req.Target, "reject407"):
 			io.WriteString(c, "HTTP/1.1 407 Proxy Authentication Required\r\nProxy-Authenticate: Basic realm=\"R\"\r\nContent-Length: 0\r\n\r\n")
+		case strings.HasPrefix(req.Target, "reject100"):
+			io.WriteString(c, "HTTP/1.1 100 Continue\r\n\r\n")
+			time.Sleep(15 * time.Second) // and then nothing
 		case strings.HasPrefix(req.Target, "reject302"):
 			io.WriteString(c, "HTTP/1.1 302 Found\r\nLocation: http://login.example/portal\r\nContent-Length: 5\r\nX-Peer: R\r\n\r\nlogin")
 		case strings.HasPrefix(req.Target, "reject502"):
@@ -350,6 +360,8 @@ func (env *c12Env) faultCase(c c12Case, k int, rejf *fwd) map[string]any {
 		host = "reject502.test"
 	case "proxy_connect_302":
 		host = "reject302.test"
+	case "proxy_connect_100":
+		host = "reject100.test"
 	}
 	rst := ""
 	if strings.HasPrefix(c.F, "rst_") {
